@@ -188,7 +188,13 @@ func runContained(engine string, seed uint64, tier string, ncases int, name func
 		if len(partial) > 6 {
 			partial = partial[len(partial)-6:]
 		}
-		emit("oracle C01 process-died:%s case=%d scenario=%s %q last-lines=%q", site, crashed, name(crashed), first, strings.Join(partial, " || "))
+		exit3 := false
+		if ee, ok := runErr.(*exec.ExitError); ok && ee.ExitCode() == 3 {
+			exit3 = true // the child gave up on a wedged node after reporting it itself
+		}
+		if !exit3 {
+			emit("oracle C01 process-died:%s case=%d scenario=%s %q last-lines=%q", site, crashed, name(crashed), first, strings.Join(partial, " || "))
+		}
 		from = crashed + 1
 	}
 }
